@@ -35,9 +35,18 @@ BadPart(e) ==
      IF e.res # "ok" \/ Len(e.steps) # (IF e.route = "push" THEN Len(e.ivs) + 1
                                         ELSE IF e.route = "list+push" THEN Len(e.ivs) - e.k + 1 ELSE Len(e.ivs))
      THEN {"C11:object_lifecycle"}
-     ELSE LET P == SeqSet(e.ivs) IN
+     ELSE LET P == SeqSet(e.ivs)
+              \* queries interleaved with the pushes: right before push j the two end points of the new interval are
+              \* in no interval (push's precondition puts it above everything present); right after, in the last one
+              np == Len(e.probes)
+              ProbeOk(j) == LET pr == e.probes[j]
+                                n  == Len(e.steps[Len(e.steps) - np + j].ivs)      \* intervals after push j
+                            IN /\ pr.before = <<-1, -1>>
+                               /\ pr.after = <<n - 1, n - 1, n - 1>>
+          IN
           Failed(Tag("C11", UNION {StepObs(e, k) : k \in 1..Len(e.steps)}
-                            \cup QueryObs(P, e.steps[Len(e.steps)], e)))
+                            \cup QueryObs(P, e.steps[Len(e.steps)], e)
+                            \cup {<<"class_of_char_between_pushes", \A j \in 1..np : ProbeOk(j)>>}))
   ELSE \* try_from_list / try_from_iter
      IF ~ListAccepted(e.ivs)
      THEN Failed({<<"C11:try_from_list_rejects_overlap", e.res # "ok" /\ e.res # "panic" /\ e.iter_same>>})
